@@ -123,3 +123,26 @@ PROPS["C20"] = {
     "level_note": "trusts prometheus client_golang's Gather; sample_sum compared with relative tolerance 1e-9",
     "assumptions": ["label values are valid UTF-8"],
 }
+
+PROPS["C14"] = {
+    "title": "Target files decode to exactly the targets they describe, independently",
+    "units": [{"name": "targets", "pkg": "lib", "run": "^TestC14"}],
+    "rule": "rapid draws an abstract target list (1..50 targets: [A-Z]+ methods, absolute URLs, 0..8 headers with "
+            "arbitrary key case, repeated keys and keys shared with the defaults, values with ':' and inner blanks, "
+            "optional body files incl. empty) plus default headers built by append with 0..3 spare capacity and a "
+            "default body, and renders it (a) in the http format with comment lines, blank lines, surrounding "
+            "whitespace, CRLF/LF, missing final newline in every legal position, (b) in the JSON format with drawn "
+            "field order and blank lines, (c) through NewJSONTargetEncoder. Non-trivial = >= 2 targets sharing a header "
+            "key with the defaults, or >= 1 comment line directly after a request line; distinct = distinct case.",
+    "explanation": "Oracle: successive calls with a fresh Target return exactly the abstract targets (defaults' values "
+                   "first, own values added, exact key case, own body else default) then ErrNoTargets twice; every "
+                   "returned target is deep-copied and re-compared after every later call; the defaults map and the "
+                   "full backing arrays of its slices are compared with their pre-run snapshot; ReadAllTargets agrees "
+                   "with lazy decoding; encoder output decodes to Equal targets.",
+    "technique": "grammar-based property test with snapshot re-inspection of earlier outputs (rapid)",
+    "level_text": "grammar-based generated-input search over target documents against the abstract list they were "
+                  "rendered from, with aliasing detection by snapshots; cannot prove absence",
+    "level_note": "documents are well-formed by construction (header blocks end at a blank line or EOF; no blank before "
+                  "the colon of a header); an empty body file may decode to the empty or to the default body",
+    "assumptions": ["callers pass a fresh Target to every call (ReadAllTargets and the attacker do)"],
+}
